@@ -1,11 +1,11 @@
 \* the code as it is (CtxAwareSends = FALSE): every safety property except NoLeak
 CONSTANTS HA = 2 HB = 0 ForkAt = 0 Start = 0 MaxIter = 3 WithCancel = TRUE
   Peers = {"honest", "corrupt", "trunc"}
-  Verify = TRUE Retry = TRUE CheckedStore = TRUE CtxAwareSends = FALSE
+  Verify = TRUE Retry = TRUE CheckedStore = TRUE CtxAwareSends = FALSE FieldsChecked = FALSE
   ClassOf <- MCIdentity EmptyA <- MCEmptyMix EmptyB <- MCNoEmpty
 INIT Init
 NEXT Next
 VIEW view
-INVARIANTS TypeOK StoredIsChain OnlyVerified EmittedVerified PrefixOfA NoSkip ExitOnlyAfterCancel
+INVARIANTS TypeOK StoredIsChain OnlyVerified EmittedVerified PrefixOfA NoSkip ExitOnlyAfterCancel NoCrash
 PROPERTIES StoreExtends
 CHECK_DEADLOCK FALSE
